@@ -12,8 +12,8 @@ macro "inv_open" h:ident : tactic => `(tactic|
 macro "inv_close" : tactic => `(tactic|
   (constructor <;> (try simp only [tick, live, advPc, afterNextPc, HoldsTl, HoldsHd, Owns, Held, abs, upd]) <;> (first | assumption | grind)))
 
-/-- diagnosis: leaves the clauses `grind` cannot close -/
-macro "inv_dbg" : tactic => `(tactic|
+/-- like `inv_close` but leaves the clauses `grind` cannot close to the caller -/
+macro "inv_most" : tactic => `(tactic|
   (constructor <;> (try simp only [tick, live, advPc, afterNextPc, HoldsTl, HoldsHd, Owns, Held, abs, upd]) <;> (first | assumption | grind | skip)))
 
 macro "st_inj" st:ident : tactic => `(tactic|
